@@ -410,7 +410,7 @@ fn c13_chain(depth: usize, max_len: u32) {
 
 // ------------------------------------------------------------------ C15
 
-fn c15_finalize(k: usize, threads_form: bool) {
+pub(crate) fn c15_finalize(k: usize, threads_form: bool) {
   // hot handle -> (optional operator) -> finalize -> probe; any item prefix, then any
   // order of complete / error / unsubscribe, each possibly repeated through clones
   let probe = fresh_probe();
@@ -683,7 +683,7 @@ pub fn harnesses() -> Vec<HarnessDef> {
   add("c15_finalize", vec!["C15"], "finalize: any item prefix then any order of complete/error/unsubscribe (repeated through clones); counter 0 before, 1 right after the first trigger, never 2; not before the downstream terminal",
     |t| format!("{} steps; optional operator before and after finalize", if t { 6 } else { 5 }),
     Box::new(|t| c15_finalize(if t { 6 } else { 5 }, false)), 600_000, 10_000_000, false);
-  add("c15_finalize_threads", vec!["C15", "C18"], "finalize_threads, same scripts (single logical thread)",
+  add("c15_finalize_threads", vec!["C15"], "finalize_threads, same scripts (single logical thread)",
     |t| format!("{} steps", if t { 6 } else { 5 }),
     Box::new(|t| c15_finalize(if t { 6 } else { 5 }, true)), 600_000, 10_000_000, false);
   add("c04_timeline", vec!["C04"], "merge, zip, combine_latest, with_latest_from, take_until, skip_until, sample, buffer(notifier): every merged timeline of two hot inputs vs the timeline oracle",
